@@ -501,6 +501,21 @@ def _gen_input(rng, cfg, kind):
         if n == 3 and rng.random() < 0.5:
             other = [x for x in range(n) if x not in w][0]
             items.append(_U("HPow", (1.0, 0.0), (other,)))
+    elif kind == "lone-1q-int-power":
+        # one named single-qubit gate at a whole-number (or half) exponent, the only single-qubit operation on its qubit,
+        # so that per-gate shortcuts of the gateset (not the merged-matrix path) decide; optionally right after a native
+        # two-qubit gate on the same qubit, which keeps the component but converts its single-qubit members one by one
+        n = int(rng.integers(1, 4))
+        fam = ["HPow", "XPow", "YPow", "ZPow", "HPow"][int(rng.integers(5))]
+        e = float(rng.choice([0, 2, -2, 4, 3, -1, -3, 1, 0.5, -0.5, 6]))
+        sh = float(rng.choice([0.0, 0.0, 0.5, -0.5]))
+        w = _wires(rng, n, 1)
+        if n >= 2 and cfg["native2"] and rng.random() < 0.5:
+            name, p_ = cfg["native2"][int(rng.integers(len(cfg["native2"])))]
+            other = [x for x in range(n) if x != w[0]][0]
+            items.append(_U(name, _off_edge(_specs()[name].sample(rng)) if p_ is None else p_, (w[0], other)))
+        items.append(_U(fam, (e, sh), w))
+        label = "lone-1q-int-power:%s**%g" % (fam, e)
     elif kind == "named-pair":
         # two named two-qubit gates back to back on one pair (any wire order), alone on that pair: exactly the two-operation
         # components for which gatesets keep special-case shortcuts (e.g. SWAP next to a ZZ power)
@@ -590,7 +605,8 @@ class _time_limit:
         return False
 
 
-_KINDS = ["haar", "single-2q", "kak", "catalogue", "two-qubit-circuit", "native", "native", "mixed", "mixed", "named-int-power", "named-pair", "named-pair"]
+_KINDS = ["haar", "single-2q", "kak", "catalogue", "two-qubit-circuit", "native", "native", "mixed", "mixed", "named-int-power", "named-pair", "named-pair",
+          "lone-1q-int-power"]
 
 def _is_native(op, cfg, opinion):
     """opinion 'G': the gateset's own answer; 'T': the harness table (CircuitOperations unrolled where documented)."""
